@@ -85,6 +85,24 @@ def check_stream(ctx, c):
                             where=f'{oc.name if oc else mod.name}.{fn.name}')
     ctx.ob('R12.1', f'{c}:who-may-touch', n_out == 0, sample=f'{c}.{G} is touched only inside {c}: {n_out == 0}')
 
+    # next_bool / next_int that delegate to self.next_float() draw what next_float draws: when next_float is exactly
+    # `return self.G.random()` the delegation is replaced by that expression (matching form; next_float itself is checked below)
+    nf = prog.simple_return(c, 'next_float')
+    if nf is not None and unparse(nf) == f'self.{G}.random()' and not getattr(ci, '_pdsa_c12_done', False):
+        import copy as _copy
+
+        class _Deleg(ast.NodeTransformer):
+            def visit_Call(self, node):
+                self.generic_visit(node)
+                if isinstance(node.func, ast.Attribute) and node.func.attr == 'next_float' and is_self_attr(node.func) and not node.args and not node.keywords:
+                    return ast.copy_location(_copy.deepcopy(nf), node)
+                return node
+        for m_ in ('next_bool', 'next_int'):
+            f_ = ci.methods.get(m_)
+            if f_ is not None:
+                _Deleg().visit(f_)
+                ast.fix_missing_locations(f_)
+        ci._pdsa_c12_done = True
     ctx.rule('R12.2', f'every next_* of {c} consumes exactly one draw of the private generator on every path')
     for m in ('next_bool', 'next_float', 'next_int'):
         fn = prog.method(c, m, inherited=False)
@@ -165,6 +183,51 @@ def check_stream(ctx, c):
     ctx.ob('R12.3', f'{c}.__init__', ok, sample=f'{c}.__init__: original seed := {short(ostore[0].value) if ostore else "?"}; {short(calls[0]) if calls else "no set_seed"}')
     if not ok:
         ctx.finding('R12.3', f'{c}.__init__:seed', ci, init, 'the constructor must remember the seed as original seed and seed the generator with the same value', where=f'{c}.__init__')
+
+    ctx.rule('R12.8', f'{c}.__init__: a seed given by the caller is never replaced -- every local assignment that computes a seed (clock fallback) is reachable only when the seed parameter is None')
+    sp = init.args.args[1].arg if len(init.args.args) > 1 else None
+    if sp is None:
+        raise AnalysisError(f'anchor vanished: {c}.__init__ has no seed parameter')
+    from ..guards import GuardEval
+    n8 = 0
+    # locals that merely hold the parameter (x = seed) answer the guards like the parameter does
+    aliases8 = {sp}
+    for _r in range(3):
+        for st in walk_shallow(init):
+            if isinstance(st, (ast.Assign, ast.AnnAssign)) and isinstance(getattr(st, 'value', None), ast.Name) and st.value.id in aliases8:
+                for t in (st.targets if isinstance(st, ast.Assign) else [st.target]):
+                    if isinstance(t, ast.Name):
+                        aliases8.add(t.id)
+    for st in walk_shallow(init):
+        if not isinstance(st, (ast.Assign, ast.AnnAssign, ast.AugAssign)) or getattr(st, 'value', None) is None:
+            continue
+        tg = st.targets if isinstance(st, ast.Assign) else [st.target]
+        if not all(isinstance(t, ast.Name) for t in tg):
+            continue
+        names = {x.id for x in ast.walk(st.value) if isinstance(x, ast.Name)}
+        calls = [x for x in ast.walk(st.value) if isinstance(x, ast.Call) and unparse(x.func) not in ('int',)]
+        if not calls and not isinstance(st.value, (ast.BoolOp, ast.IfExp, ast.Constant)) and not isinstance(st, ast.AugAssign):
+            continue                    # seed = seed, s = int(seed): the given value itself
+        if not calls and isinstance(st.value, ast.Constant) and st.value.value is None:
+            continue
+        node = g.node_for(st)
+        if node is None:
+            continue
+        n8 += 1
+        gb = g.guard_branches(node, atoms=True)
+        for given, truthy in ((0, False), (12345, True)):
+            env8 = {}
+            for nm in aliases8:
+                env8.update({nm: given, ('bool', nm): truthy, ('isnone', nm): False})
+            ge = GuardEval(prog, c, env8)
+            refuted = any(ge.ev(cn.ast) is (not br) for cn, br in gb if cn.ast is not None)
+            ctx.ob('R12.8', f'{c}.__init__:{short(st)}:seed={given}', refuted, sample=f'`{short(st)}` unreachable for seed={given}: guards {[(short(cn.ast), br) for cn, br in gb][:3]}')
+            if not refuted:
+                ctx.finding('R12.8', f'{c}.__init__:seed-replaced', ci, st,
+                            f'`{short(st)}` computes a seed and is reachable when the caller passes seed={given}: a given seed is replaced (the stream is not reproducible from it); '
+                            f'the fallback must be guarded by `{sp} is None`', where=f'{c}.__init__')
+                break
+    ctx.floor('R12.8', 'computed-seed assignments in the constructor', n8, 1)
 
     ctx.rule('R12.4', f'state wiring of {c}: save_state = generator.getstate(); restore_state(x) = generator.setstate(x)')
     sv = prog.method(c, 'save_state', inherited=False)
